@@ -547,8 +547,11 @@ def finish(ctx, audit):
             cov[k] = v
     ev = {"property_id": prop, "tier": ctx.tier, "seed": ctx.seed, "level": "proof", "coverage": cov,
           "assumptions": ctx.assumptions, "wall_s": round(time.time() - ctx.t0, 2), "violations": nviol}
-    (VERIF / "evidence").mkdir(exist_ok=True)
-    (VERIF / "evidence" / ("%s.json" % prop)).write_text(json.dumps(ev, indent=1, default=str))
+    # VERIF_EVIDENCE_DIR: used only by tools/run_seeds.py so that runs against mutated scratch trees do not
+    # overwrite the evidence of the registered checks (which always write /verif/evidence)
+    evdir = Path(os.environ.get("VERIF_EVIDENCE_DIR") or (VERIF / "evidence"))
+    evdir.mkdir(exist_ok=True)
+    (evdir / ("%s.json" % prop)).write_text(json.dumps(ev, indent=1, default=str))
     for l in lines:
         print(l)
     print("%s %s: obligations %d/%d, evaluations %d (distinct non-trivial %d), disagreements %d, violations %d, known findings %d, %.1fs"
@@ -577,6 +580,8 @@ def anchor_hashes(names):
                 obj = inspect.getattr_static(obj, part) if not inspect.ismodule(obj) else getattr(obj, part)
                 obj = getattr(obj, "__func__", obj)
                 obj = getattr(obj, "fget", obj) if isinstance(obj, property) else obj
+                if type(obj).__name__ == "cached_property":      # functools.cached_property (pyflyby's cached_attribute)
+                    obj = obj.func
             obj = getattr(obj, "__wrapped__", obj)
             src = textwrap.dedent(inspect.getsource(obj))
             out[n] = hashlib.sha256(ast.dump(ast.parse(src)).encode()).hexdigest()[:16]
